@@ -323,7 +323,13 @@ pub fn flush_at<const LEN: usize, const POS: usize>(nd: &mut Nd) {
 
 /// `send_reply`/`send_call`/`send_error` = enqueue then one write of old bytes + new frame.
 pub fn send_at<const LEN: usize, const POS: usize>(nd: &mut Nd) {
-    let which = nd.below(3);
+    send_kind_at::<LEN, POS, 3>(nd)
+}
+
+/// The same with the entry point fixed by the instance (KIND 0 = send_call, 1 = send_reply,
+/// 2 = send_error; 3 = symbolic choice): one coroutine type per formula.
+pub fn send_kind_at<const LEN: usize, const POS: usize, const KIND: usize>(nd: &mut Nd) {
+    let which = if KIND < 3 { KIND } else { nd.below(3) };
     let (a, b, c) = (nd.bool(), nd.bool(), nd.bool());
     let mut conn = wc(LEN, POS);
     let (res, doc) = match which {
@@ -381,10 +387,14 @@ pub fn send_at<const LEN: usize, const POS: usize>(nd: &mut Nd) {
             assert!(pos == POS, "C02.refused_message_contributes_no_bytes");
         }
     }
-    if POS + 27 + 1 <= MAX {
-        cover!(nd, fits && which == 0 && a && b, "call with two flags sent");
+    if KIND == 0 || KIND == 3 {
+        if POS + 27 + 1 <= MAX {
+            cover!(nd, fits && which == 0 && a && b, "call with two flags sent");
+        } else {
+            cover!(nd, !fits, "send refused: does not fit");
+        }
     } else {
-        cover!(nd, !fits, "send refused: does not fit");
+        cover!(nd, fits == (POS + n + 1 <= MAX), "send decided");
     }
     core::mem::forget(conn);
 }
